@@ -14,7 +14,8 @@ class Prop:
     TARGETS = ['props/C16.vo', 'props/C16term.vo', 'props/C16app.vo', 'props/C11.vo', 'props/C12.vo']
     PROPS_FILE = 'props/C16.v'
     PROPS_FILES = ['props/C16.v', 'props/C16term.v', 'props/C16app.v']
-    SUITES = [NodeSuite(evals={'mismatches': 'mismatches', 'spec_violations': 'spec_violations_c16k', 'known:set-state-livelock': 'known_c16_livelock'}),
+    SUITES = [NodeSuite(evals={'mismatches': 'mismatches', 'spec_violations': 'spec_violations_c16k', 'known:set-state-livelock': 'known_c16_livelock'},
+                        thorough=(3000, 150)),
               ProcessSuite(), SequencerC16(), InvalidationSuite(), AppMemberSuite()]
     RULE = base.Prop.RULE
     ASSUMPTIONS = base.Prop.ASSUMPTIONS
